@@ -12,16 +12,18 @@ Definition matvec (m : list (list R)) (u : list R) : list R := map (fun r => dot
 Fixpoint transpose_aux (n : nat) (m : list (list R)) : list (list R) :=
   match n with O => [] | S k => map (fun r => hd 0 r) m :: transpose_aux k (map (@tl R) m) end.
 Definition transpose (m : list (list R)) := transpose_aux (length (hd [] m)) m.
-Definition mmul (a b : list (list R)) : list (list R) :=
-  let bt := transpose b in map (fun r => map (fun c => dotR r c) bt) a.
 Definition vadd (a b : list R) : list R := map (fun p => fst p + snd p) (combine a b).
 Definition vscale (c : R) (a : list R) : list R := map (fun x => c * x) a.
+Definition zeros (n : nat) : list R := repeat 0 n.
+(* row vector times matrix: the linear combination of the rows of b with coefficients r *)
+Definition vecmat (r : list R) (b : list (list R)) : list R :=
+  fold_right (fun cr acc => vadd (vscale (fst cr) (snd cr)) acc) (zeros (length (hd [] b))) (combine r b).
+(* matrix product (the meaning given to np.dot of two 2-D arrays) *)
+Definition mmul (a b : list (list R)) : list (list R) := map (fun r => vecmat r b) a.
 
 Definition evl (env : list R) (l : list expr) : list R := map (evalR env) l.
 Definition evm (env : list R) (m : list (list expr)) : list (list R) := map (map (evalR env)) m.
 Definition evlD (env : list (R * R)) (l : list expr) : list (R * R) := map (evalD env) l.
-
-Definition zeros (n : nat) : list R := repeat 0 n.
 
 (* the line t |-> vals + t * U *)
 Definition line (vals U : list R) : list (R -> R) := map (fun p (t : R) => fst p + t * snd p) (combine vals U).
@@ -100,6 +102,66 @@ Proof. revert b; induction a; destruct b; simpl; intros; try discriminate; auto.
 Lemma Forall2_derive_snd (ff : list (R -> R)) (dd : list (R * R)) t0 :
   env_derives ff t0 dd -> Forall2 (fun g v => is_derive g t0 v) ff (map snd dd).
 Proof. intros H. induction H as [|g pr ff dd [_ Hd] _ IH]; simpl; constructor; auto. Qed.
+
+
+(* ---- matrix algebra: (A B) u = A (B u) for well-shaped list matrices ---- *)
+Lemma dotR_nil_r a : dotR a [] = 0.
+Proof. unfold dotR. destruct a; reflexivity. Qed.
+Lemma dotR_cons x a y b : dotR (x :: a) (y :: b) = x * y + dotR a b.
+Proof. reflexivity. Qed.
+Lemma dotR_vadd x y u : length x = length y -> dotR (vadd x y) u = dotR x u + dotR y u.
+Proof.
+  revert y u. induction x as [|a x IH]; intros [|b y] u H; simpl in H; try discriminate.
+  - unfold vadd, dotR; simpl. ring.
+  - destruct u as [|c u].
+    + rewrite !dotR_nil_r. ring.
+    + change (vadd (a :: x) (b :: y)) with ((a + b) :: vadd x y). rewrite !dotR_cons. rewrite IH by lia. ring.
+Qed.
+Lemma dotR_vscale c x u : dotR (vscale c x) u = c * dotR x u.
+Proof.
+  revert u. induction x as [|a x IH]; intros u.
+  - unfold dotR; simpl. ring.
+  - destruct u as [|b u].
+    + rewrite !dotR_nil_r. ring.
+    + change (vscale c (a :: x)) with ((c * a) :: vscale c x). rewrite !dotR_cons. rewrite IH. ring.
+Qed.
+Lemma dotR_zeros n u : dotR (zeros n) u = 0.
+Proof.
+  revert u. induction n as [|n IH]; intros u; [reflexivity|].
+  destruct u as [|b u]; [apply dotR_nil_r|]. change (zeros (S n)) with (0 :: zeros n). rewrite dotR_cons, IH. ring.
+Qed.
+Lemma length_vadd x y : length x = length y -> length (vadd x y) = length x.
+Proof. intros H. unfold vadd. rewrite map_length, combine_length, H. apply Nat.min_id. Qed.
+Lemma length_vscale c x : length (vscale c x) = length x.
+Proof. apply map_length. Qed.
+Lemma length_vecmat_gen r b n : List.Forall (fun row => length row = n) b ->
+  length (fold_right (fun cr acc => vadd (vscale (fst cr) (snd cr)) acc) (zeros n) (combine r b)) = n.
+Proof.
+  revert r. induction b as [|row b IH]; intros r Hb.
+  - destruct r; simpl; apply repeat_length.
+  - destruct r as [|c r]; simpl; [apply repeat_length|].
+    inversion Hb as [|? ? Hrow Hrest]; subst.
+    rewrite length_vadd; rewrite length_vscale; auto. rewrite IH; auto.
+Qed.
+Lemma dotR_vecmat_gen r b n u : List.Forall (fun row => length row = n) b ->
+  dotR (fold_right (fun cr acc => vadd (vscale (fst cr) (snd cr)) acc) (zeros n) (combine r b)) u = dotR r (matvec b u).
+Proof.
+  revert r. induction b as [|row b IH]; intros r Hb.
+  - destruct r; simpl; rewrite dotR_zeros; [reflexivity|]. unfold matvec. simpl. rewrite dotR_nil_r. reflexivity.
+  - destruct r as [|c r].
+    + simpl. rewrite dotR_zeros. reflexivity.
+    + cbn [combine fold_right fst snd]. inversion Hb as [|? ? Hrow Hrest]; subst.
+      assert (Hl : length (vscale c row) = length (fold_right (fun cr acc => vadd (vscale (fst cr) (snd cr)) acc)
+                (zeros (length row)) (combine r b))) by (rewrite length_vscale, length_vecmat_gen; auto).
+      rewrite (dotR_vadd _ _ u Hl). rewrite dotR_vscale, IH; auto.
+Qed.
+Definition well_shaped (n : nat) (b : list (list R)) : Prop := List.Forall (fun row => length row = n) b.
+Lemma matvec_mmul a b u n : b <> [] -> well_shaped n b -> matvec (mmul a b) u = matvec a (matvec b u).
+Proof.
+  intros Hne Hb. unfold mmul, matvec at 1 3. rewrite map_map. apply map_ext. intros r.
+  unfold vecmat. destruct b as [|row b]; [contradiction|]. simpl hd.
+  inversion Hb as [|? ? Hrow Hrest]; subst. apply dotR_vecmat_gen; auto.
+Qed.
 
 (* ---- tactics ---- *)
 (* destruct a list hypothesis [length l = n] (n a literal) into its elements *)
